@@ -74,8 +74,8 @@ def generate(tier):
     protocols = []
     for n in range(1, max_steps + 1):
         for rows in it.product(range(len(ROWS)), repeat=n):
-            if n > 1 and len(set(rows)) == 1:
-                continue  # at least one change
+            if n > 2 and len(set(rows)) == 1:
+                continue  # at least one change (two-step protocols also repeat one row: "repeated values")
             if n == 3 and tier == "thorough" and not (rows[0] != rows[1] and rows[1] != rows[2]):
                 continue
             for durs in it.product(durations, repeat=n):
